@@ -145,6 +145,10 @@ func (m *mon) c11() {
 					m.add("C11", "ack-unknown-id", "Acknowledge(%q) for an id never issued", op.ackID)
 					continue
 				}
+				if d < 0 {
+					m.add("C11", "acked-unprocessed", "an entry that could not be decoded (so was never processed) was acknowledged (%s) at t=%d", op.ackID, op.t)
+					continue
+				}
 				if acked[op.ackID] {
 					m.add("C11", "ack-twice", "item d%d acknowledged twice (%s)", d, op.ackID)
 				}
@@ -190,10 +194,12 @@ func (m *mon) c11() {
 				m.add("C11", "lost", "item d%d was accepted by the adapter but is neither pending, unacknowledged nor acknowledged", op.data)
 			}
 		}
+		// pending items at rest with a running consumer: also when the scenario hangs in WaitUntilFinished because of it
+		if !m.s.Livelock && len(m.s.Panics) == 0 && m.finalWorkerStatus() == 1 && !m.e.noFinalDrain && len(a.pending) > 0 {
+			m.add("C11", "not-drained", "adapter %d still holds %d pending items at rest with a running consumer (nothing is in flight)", a.idx, len(a.pending))
+			m.add("C12", "not-drained", "adapter %d still holds %d pending items at rest with a running consumer (%d undecodable entries were stored)", a.idx, len(a.pending), m.e.params["bad"])
+		}
 		if m.clean() && m.finalWorkerStatus() == 1 && !m.e.noFinalDrain && a.failAck == 0 && a.failDeq == 0 {
-			if len(a.pending) > 0 {
-				m.add("C11", "not-drained", "adapter %d still holds %d pending items at rest with a running consumer", a.idx, len(a.pending))
-			}
 			for id, it := range a.unacked {
 				if it.data >= 0 {
 					if s := m.e.byData[it.data]; s != nil && len(s.tExit) > 0 {
